@@ -305,8 +305,8 @@ def finding_signature(pid, c, fail):
     m = c.meta or {}
     if pid == "C06" and "no progress" in fail:
         return "rosenbrock:time_step_below_round_off"
-    if pid == "C10" and "non-finite" in fail and m.get("integ") == 0 and m.get("inf_product_only"):
-        return "rosenbrock:inf_in_product_only_species"
+    if pid == "C10" and m.get("integ") == 0 and m.get("inf_not_consumed"):
+        return "rosenbrock:inf_in_species_not_consumed"
     return (c.kind or "") + ":" + fail.split(":")[0][:60]
 
 # =============================================================================== per-property generators
@@ -425,17 +425,25 @@ def g_c10(r, tier, env, Ls):
         if z <= 3:
             bad = r.pick([float("nan"), float("inf"), float("-inf")])
             where = r.pick(["y", "k"])
-            idx = r.below(len(p[where]))
+            nrx = len(p["rx"])
+            if where == "k":
+                # a rate constant that enters the computation: its reaction has a state reactant or product
+                live = [q for q, (a, b) in enumerate(p["rx"]) if any(x < PARAM0 for x in a) or any(x < PARAM0 for x, _ in b)]
+                if not live:
+                    where = "y"
+                else:
+                    idx = r.below(p["ncell"]) * nrx + r.pick(live)
+            if where == "y":
+                idx = r.below(len(p["y"]))
             p[where] = list(p[where]); p[where][idx] = bad
             meta["nonfinite_input"] = True
             meta[where] = p[where]
-            # product-only species holding +inf (recorded finding for the Rosenbrock integrator)
-            if where == "y" and bad == float("inf"):
-                sp_state = idx % p["ns"]
-                sp = p["perm"].index(sp_state)
+            # +-inf in a species that no reaction consumes (recorded finding for the Rosenbrock integrator)
+            if where == "y" and abs(bad) == float("inf"):
+                sp = idx % p["ns"]
                 reactant_ids = {x for a, _ in p["rx"] for x in a}
                 if sp not in reactant_ids:
-                    meta["inf_product_only"] = True
+                    meta["inf_not_consumed"] = True
             tags = ["nonfinite_%s" % where]
         elif z == 4:
             p["y"] = [-abs(v) if r.chance(0.5) else v for v in p["y"]]; meta["y"] = p["y"]; tags = ["negative_initial"]
@@ -625,7 +633,7 @@ def gen_build_case(r, errors=False):
     nph = r.below(2)
     aq = names[ng:ng + r.rng(1, 2)] if nph else []
     def decl(n, param=False):
-        has = r.chance(0.5)
+        has = r.chance(0.5) and not param   # a tolerance property on a parameterized (non-state) species is outside the property
         return [n, "1" if param else "0", "1" if has else "0", hexd(r.pick([1e-5, 1e-8, 1e-12, 2.5e-4]) if has else 0.0)]
     toks = []
     gas_decl = [decl(n) for n in gas]
@@ -984,6 +992,65 @@ def oracle_hist_errors(c, out):
             return f"solve failed after rejected calls: '{res[:60]}'"
     return None
 
+def oracle_rosparams(c, out):
+    """the translator's reading of the header must equal what the compiled C++ holds"""
+    cmd, d = parse_kv(out or "")
+    if cmd != "rosparams":
+        return f"rosparams outcome '{(out or '')[:60]}'"
+    t = c.meta["table"]
+    if int(d["stages"][0]) != t["stages"]:
+        return f"{c.meta['name']}: stages {d['stages'][0]} vs translator {t['stages']}"
+    for k in ("a", "c", "m", "e", "alpha", "gamma"):
+        got = [unhex(v) for v in d[k]]
+        if got != list(t[k]):
+            return f"{c.meta['name']}: table {k}_ differs between compiled code and translator: {got} vs {t[k]}"
+    if [int(v) for v in d["newf"]] != [1 if b else 0 for b in t["new_function_evaluation"]]:
+        return f"{c.meta['name']}: new_function_evaluation_ differs"
+    sc = [unhex(v) for v in d["scal"]]
+    exp = [t["estimator_of_local_order"], t["round_off"], t["factor_min"], t["factor_max"], t["rejection_factor_decrease"],
+           t["safety_factor"], t["h_min"], t["h_max"], t["h_start"]]
+    if sc != exp:
+        return f"{c.meta['name']}: scalar parameters differ: {sc} vs {exp}"
+    if int(d["maxsteps"][0]) != int(t["max_number_of_steps"]):
+        return f"{c.meta['name']}: max_number_of_steps differs"
+    be = [unhex(v) for v in d["be"]]
+    b = c.meta["be"]
+    if be != [b["small"], b["h_start"], float(b["max_number_of_steps"])] + list(b["time_step_reductions"]):
+        return "backward Euler defaults differ between compiled code and translator"
+    return None
+
+def oracle_c08_numeric(c, out):
+    fails = O.c08_numeric(c.meta["ros"])
+    return fails[0] if fails else None
+
+def g_c08(r, tier, env, Ls):
+    cs = []
+    for i, name in enumerate(ROS_NAMES):
+        cs.append(Case(f"rosparams {i}", dict(name=name, table=env["ros"][name], be=env["be"]), "rosparams", oracle=oracle_rosparams,
+                       compare=False, tags=[name]))
+    cs.append(Case("rosparams 0", dict(ros=env["ros"]), "order-conditions", oracle=oracle_c08_numeric, compare=False, tags=["numeric_conditions"]))
+    # accuracy sentence (measured, supporting data only): BE on a linear decay reproduces the implicit-Euler map
+    n = 40 if tier == "quick" else 400
+    for _ in range(n):
+        k = r.logu(1e-3, 1e3); y0 = r.logu(1e-3, 1e3); dt = r.logu(1e-2, 1e2)
+        b = dict(env["be"]); b["h_start"] = 0.0
+        p = dict(integ=1, L=r.pick(Ls), csc=r.below(2), kind=r.below(4), ncell=1, ns=1, perm=[0], rx=[([0], [])], k=[k], y=[y0],
+                 atol=[1e-12], rtol=1e-9, dt=dt, ptoks=G.be_param_tokens(b))
+        cs.append(Case(problem_line(p, clamp=0, trace=0), dict(k=k, y0=y0, dt=dt), "be-linear", oracle=oracle_be_linear, tags=["be_linear"]))
+    return cs
+
+def oracle_be_linear(c, out):
+    s = parse_solve(out or "")
+    if s is None:
+        return f"Solve did not return a result: '{(out or '')[:80]}'"
+    if s["status"] != "Converged" or s["stats"]["acc"] != 1:
+        return None     # several sub-steps: the closed form below is for one implicit-Euler step
+    m = c.meta
+    exact = m["y0"] / (1.0 + m["dt"] * m["k"])
+    if abs(s["y"][0] - exact) > 1e-9 * abs(exact):
+        return f"backward Euler on y' = -k y gave {s['y'][0]!r}, the implicit-Euler map gives {exact!r}"
+    return None
+
 # =============================================================================== registry
 ASSUME_FP = "floating-point rounding is not modelled in the theorems; the model's Float run is compared bit-for-bit with the C++"
 PROPS = {
@@ -998,6 +1065,9 @@ PROPS = {
  "C06": dict(level="proof", gen=g_c06, rule="whole solves, time steps 1e-20..1e7 incl. below round-off; oracle = status/final_time/counter consistency", Ls={"quick": [0, 3], "thorough": [0, 1, 2, 3, 4]},
              missing="rounding of present_time + H and termination of the retry loop (relies on H underflow) are outside exact-arithmetic theorems", assumptions=[ASSUME_FP]),
  "C07": dict(level="proof", gen=g_c07, rule="whole solves with perturbed controller parameters (h_min, h_max, h_start, factors, max steps; BE reductions)", Ls={"quick": [0, 3], "thorough": [0, 1, 2, 3, 4]}, assumptions=[ASSUME_FP]),
+ "C08": dict(level="proof", gen=g_c08, rule="the five coefficient sets: compiled C++ values vs translator (exact), all algebraic conditions evaluated in exact rationals; BE on linear decay vs the implicit-Euler map",
+             Ls={"quick": [0, 3], "thorough": [0, 1, 2, 3, 4]}, exhaustive={"quick": True, "thorough": True},
+             missing="the global-error sentence (accuracy of Converged results to a modest multiple of tolerance) is not proved; only the algebraic conditions and the linear BE map are", assumptions=[ASSUME_FP]),
  "C09": dict(level="proof", gen=g_c09, rule="mechanisms with a planted positive conservation law, non-clipping Solve overload; oracle = w.y before/after",
              Ls={"quick": [0, 3], "thorough": [0, 1, 2, 3, 4]}, missing="rounded form is measured, not proved", assumptions=[ASSUME_FP]),
  "C10": dict(level="proof", gen=g_c10, rule="malformed stream: NaN/+-Inf in a concentration or rate constant, negative and huge initial values, regular cases",
